@@ -16,7 +16,9 @@
    [FsyncDir] of its directory and every binding given to it since (each later directory
    operation may independently have reached the disk or not; a rename is atomic per entry:
    the destination refers to the old inode or to the new one, never to a mixture).
-   A directory created by the trace ([Mkdir]) may itself be lost, with everything in it. *)
+   A directory created by the trace ([Mkdir]) may itself be lost, with everything in it, until it
+   is itself fsynced ([FsyncDir d] makes the entries of d durable and d itself: the behaviour of
+   the journalling file systems; strict POSIX would also want an fsync of the parent). *)
 From Coq Require Import List PArith Bool.
 Import ListNotations.
 
@@ -86,7 +88,7 @@ Definition published (x : inode) : inode :=
 Definition sync_dir (s : fs) (d : dirid) : fs :=
   {| inodes := inodes s; vol := vol s;
      dur := fun m => if Pos.eqb (fst m) d then [vol s m] else dur s m;
-     fresh_dir := fresh_dir s |}.
+     fresh_dir := fun e => if Pos.eqb d e then false else fresh_dir s e |}.
 
 Definition mark_fresh (s : fs) (d : dirid) : fs :=
   {| inodes := inodes s; vol := vol s; dur := dur s;
